@@ -153,7 +153,7 @@ def gen_samples(rng, nprng, tier, positive):
     big = 600 if tier == "quick" else 2000
     m = rng.choice([rng.randint(2, 10), rng.randint(10, 100), rng.randint(10, 100),
                     rng.randint(100, big)])
-    kind = rng.choice(["normal", "normal", "lognormal", "bimodal", "uniform", "grid"])
+    kind = rng.choice(["normal", "normal", "lognormal", "bimodal", "uniform", "grid", "far_tail"])
     scale = rng.choice([1.0, 1.0, 1e-3, 1e2]) if not positive else 1.0
     mu = rng.uniform(800.0, 9000.0)
     sig = mu * rng.uniform(0.02, 0.15)
@@ -166,6 +166,13 @@ def gen_samples(rng, nprng, tier, positive):
                      nprng.normal(mu + rng.uniform(2, 5) * sig, 0.6 * sig, m))
     elif kind == "uniform":
         s = nprng.uniform(mu - 2 * sig, mu + 2 * sig, m)
+    elif kind == "far_tail":
+        # a Gaussian core and a few per cent of the samples in a tail many core widths away (more than five standard
+        # deviations of the whole sample for the farthest ones)
+        m = max(m, 40)
+        s = nprng.normal(mu, sig, m)
+        k = max(1, m // 40)
+        s[:k] = mu + sig * nprng.uniform(12.0, 40.0, k)
     else:  # values on a coarse integer grid: ties, values exactly on bin edges
         step = max(1.0, round(sig / rng.choice([2, 4, 8])))
         s = np.round(nprng.normal(mu, sig, m) / step) * step
@@ -323,6 +330,18 @@ def fixed_cases(rng):
             c["nbins"] = 5
             c["normalized"] = True
             out.append(c)
+    # a posterior with a far tail (skewed / a small secondary mode / a few stray samples), integer weights: the samples in
+    # the tail are samples like the others — binned over the whole range, whatever the weights
+    core = [5000.0 + 37.0 * ((7 * i) % 11 - 5) for i in range(44)]
+    tail = core + [7600.0, 7900.0, 8300.0]
+    wt = [float(1 + (3 * i) % 4) for i in range(len(tail))]
+    for cls, rule, nb in [("DdtHist", "binned", 30), ("DdtHist", "binned", 12), ("DdtHistKDE", "binned", 30), ("DdtHist", "scott", 30)]:
+        c = finish_case(rng, cls, list(tail), list(wt), "far_tail", "integer")
+        c["rule"] = rule
+        c["nbins"] = nb
+        c["normalized"] = True
+        c["xs"] = [4900.0, 5000.0, 5100.0, 5185.0, 7600.0, 8300.0]
+        out.append(c)
     return out
 
 
